@@ -146,3 +146,46 @@ def shrink_candidates(case):
         if not ops[i].startswith(creating):
             rem = ops[:i] + ops[i + 1:]
             yield (head + " ; " + " ; ".join(rem)) if rem else head
+
+
+def t2(chk, wc, tier, seed):
+    """Index kernels of frame.go regenerated from the source and tied to BS.Frame.idx / slice."""
+    import vlib
+    gen = []
+    ties = []
+
+    def callargs(fn, callee, prefix):
+        rc, out, err = vlib.gofacts(wc, "callargs", "frame/frame.go", fn, callee, prefix)
+        gen.append(out if rc == 0 else "-- gofacts failed for %s: %s" % (fn, err.strip()))
+
+    callargs("Frame.Swap", "f.data[k].ops.swap", "swapArg")
+    callargs("Frame.Less", "f.data[col].ops.Less", "lessArgA")
+    callargs("Frame.Less", "f.data[f.prefix].ops.Less", "lessArgB")
+    callargs("Frame.HashWithSeed", "f.data[col].ops.HashWithSeed", "hashArgA")
+    callargs("Frame.HashWithSeed", "f.data[f.prefix].ops.HashWithSeed", "hashArgB")
+    callargs("Frame.Index", "f.data[col].val.Index", "indexArg")
+    callargs("Frame.Encode", "f.data[col].ops.Encode", "encArg")
+    callargs("Frame.Decode", "f.data[col].ops.Decode", "decArg")
+    rc, out, err = vlib.gofacts(wc, "fields", "frame/frame.go", "Frame.Slice", "sliceF")
+    gen.append(out if rc == 0 else "-- gofacts failed for Slice: " + err.strip())
+
+    def idx_tie(name, var):
+        ties.append((name + "_tie",
+                     "theorem %s_tie (off i : Nat) : %s (off : Int) (i : Int) = ((BS.Frame.idx off i : Nat) : Int) := by\n"
+                     "  unfold %s BS.Frame.idx; omega" % (name, name, name),
+                     "frame/frame.go " + name))
+    # arguments (i+f.off, j+f.off): params are sorted alphabetically: f_off, then i/j
+    for n in ("swapArg_0_0", "swapArg_0_1", "lessArgA_0_0", "lessArgA_0_1", "lessArgA_1_0", "lessArgA_1_1",
+              "lessArgB_0_0", "lessArgB_0_1", "hashArgA_0_0", "hashArgB_0_0", "indexArg_0_0"):
+        idx_tie(n, "i")
+    ties.append(("enc_range_tie",
+                 "theorem enc_range_tie (off len : Nat) : encArg_0_1 (off : Int) = off ∧ encArg_0_2 (off : Int) (len : Int) = ((off + len : Nat) : Int)\n"
+                 "    ∧ decArg_0_1 (off : Int) = off ∧ decArg_0_2 (off : Int) (len : Int) = ((off + len : Nat) : Int) := by\n"
+                 "  unfold encArg_0_1 encArg_0_2 decArg_0_1 decArg_0_2; omega",
+                 "frame/frame.go Encode/Decode ranges"))
+    ties.append(("slice_tie",
+                 "theorem slice_tie (f g : BS.Frame.Frame) (i j : Nat) (h : BS.Frame.slice f i j = some g) :\n"
+                 "    sliceF_1 (f.off : Int) (i : Int) = g.off ∧ sliceF_2 (i : Int) (j : Int) = g.len ∧ sliceF_3 (f.cap : Int) (i : Int) = g.cap := by\n"
+                 "  unfold BS.Frame.slice at h; split at h\n  · cases h\n  · cases h; unfold sliceF_1 sliceF_2 sliceF_3; simp only; omega",
+                 "frame/frame.go Slice"))
+    vlib.t2_check(chk, wc, "C11", ["BS.Model.Frame", "BS.Tie.Tactic"], "\n".join(gen), ties)
